@@ -31,7 +31,9 @@ EXPLANATION = (
     ' '
     "R-C18.6 second clause: ModelMutator.add_sql stores the caller's mergeable flag unchanged."
     ' '
-    'R-C18.7 _get_field_type_change reports a type change only after comparing the field classes.')
+    'R-C18.7 _get_field_type_change reports a type change only after comparing the field classes.'
+    ' '
+    'R-C18.8 only run_mutation / add_sql / to_sql close the open ModelMutator; R-C18.9 = R-C02.15.')
 NOT_DECIDED = (
     'Rebuild counts for all sequences (needs execution and counting on the '
     'statement trace).')
@@ -524,7 +526,67 @@ def r7_same_class_is_not_a_type_change(ctx):
                         key='same-class-type-change')
 
 
+def r9_table_op_results_are_merged(ctx, rule_id='R-C18.9'):
+    """generate_table_op_sql() lowers one queued op and must *merge* what
+    the backend returns (sql_result.add(...)): an AlterTableSQLResult keeps
+    its pending alter_table items, which the SQLite backend folds into one
+    rebuild per batch.  add_sql() renders the result on the spot - a
+    stand-alone rebuild computed from the model as it was at that op, which
+    then runs after the merged rebuild and undoes the ops queued behind
+    it."""
+    ctx.rule(rule_id)
+    p = ctx.program
+    f = p.func('db.common', 'BaseEvolutionOperations.generate_table_op_sql')
+    n = 0
+    for c in walk_no_nested(f.node):
+        if isinstance(c, ast.Call) and isinstance(c.func, ast.Attribute) and \
+                c.func.attr in ('add', 'add_sql', 'add_pre_sql',
+                                'add_post_sql') and \
+                'sql_result' in unparse(c.func.value) and c.args and \
+                isinstance(c.args[0], ast.Call):
+            n += 1
+            if c.func.attr == 'add':
+                ctx.ok(f, 'backend result merged with add()', c)
+            else:
+                ctx.finding(f, c, 'generate_table_op_sql passes the result '
+                            'of %s through %s(): a table rebuild returned by '
+                            'the backend is rendered immediately instead of '
+                            'being merged with the other operations on the '
+                            'table' % (unparse(c.args[0].func), c.func.attr),
+                            key='table-op-result-flattened')
+    ctx.floor('backend results added in generate_table_op_sql', n, 4)
+
+
+def r8_who_closes_the_model_mutator(ctx):
+    """Consecutive mutations on one model share one ModelMutator, which is
+    what turns them into one table rebuild - also across several
+    run_mutations() calls on one AppMutator (one call per evolution).  The
+    open mutator may be closed only where the model changes
+    (run_mutation), when app-level SQL is added, and in to_sql()."""
+    ctx.rule('R-C18.8')
+    p = ctx.program
+    cls = p.cls('mutators.app_mutator', 'AppMutator')
+    ALLOWED = {'run_mutation', 'to_sql', 'add_sql', '_finalize_model_mutator'}
+    n = 0
+    for f in cls.methods.values():
+        for c in walk_no_nested(f.node):
+            if isinstance(c, ast.Call) and \
+                    call_name(c) == '_finalize_model_mutator':
+                n += 1
+                if f.name in ALLOWED:
+                    ctx.ok(f, 'model mutator closed at a model boundary', c)
+                else:
+                    ctx.finding(f, c, 'AppMutator.%s closes the open '
+                                'ModelMutator: mutations on the same model '
+                                'fed through the next call start a new '
+                                'mutator and a second table rebuild' % f.name,
+                                key='model-mutator-closed-early')
+    ctx.floor('_finalize_model_mutator call sites', n, 2)
+
+
 def run(ctx):
+    r9_table_op_results_are_merged(ctx)
+    r8_who_closes_the_model_mutator(ctx)
     r7_same_class_is_not_a_type_change(ctx)
     r6_run_mutations_queue_mergeable_ops(ctx)
     r1_mergeable_table(ctx)
